@@ -334,3 +334,27 @@ def without_asserts(s: Summary, guards: Sequence[Term]) -> Tuple[Term, ...]:
     """Guards that stem from `assert` statements are assumptions, not conditions."""
     asserted = {T.strip(e.term[1]) for e in s.of_kind("assert")}
     return tuple(g for g in guards if not (g[2] and T.strip(g[1]) in asserted))
+
+
+def init_field_value(prog: Program, fi: FuncInfo, t: Term) -> Term:
+    """`self.F` where F is assigned exactly once, in the constructor, to an expression over fields that
+    are themselves never re-assigned after construction: the expression (a value computed once in
+    __init__ and handed out by an accessor is the value computed on every access)."""
+    t = T.strip(t)
+    if fi.cls is None or not fi.params or not (t[0] == "attr" and t[1] == T.var(fi.params[0])):
+        return t
+    fld = t[2]
+    writers = _flow._field_writers(prog, fld)
+    init = prog.find_method(fi.cls.qualname, "__init__")
+    if init is None or len(writers) != 1 or writers[0][0].qualname != init.qualname or writers[0][1].kind != "store" or writers[0][1].guards or writers[0][1].iters:
+        return t
+    me_i = T.var(init.params[0])
+    val = T.strip(writers[0][1].term[2])
+    for b, f in T.field_reads((val,)):
+        if b != me_i:
+            return t
+        if [w for w in _flow._field_writers(prog, f) if w[0].name != "__init__"]:
+            return t
+    if any(x[0] == "var" and x != me_i for x in T.subterms((val,))):
+        return t
+    return T.replace(val, {me_i: T.var(fi.params[0])})
